@@ -1,6 +1,7 @@
 """property id -> check function(prop, tier, replay) -> exit code, plus the MANIFEST metadata"""
 import seqcheck
 import draincheck
+import wrcheck
 
 CHECKS = {}
 META = {}
@@ -43,3 +44,20 @@ META["C14"] = {
 ENGINES.append({"name": "drain-replay", "path": "tools/draincheck.py", "serves_properties": ["C14"],
                 "kind_free_text": "TLC model check + simulation of spec/Drain.tla; schedules replayed by harness/kit (gate scheduler over verifhook points) in harness/otter/verif_drain_test.go"})
 HOOK_COMMITS.extend(["3f17fd0", "90d5fc6"])
+
+_WR_TEXT = {
+    "C04": "after quiescence and one maintenance run the weight of the entries present is within the maximum, nothing heavier than the maximum is retained, zero-weight entries are never evicted (WriteReplay.tla: Bound; real cache: WRAudit.tla over the audit record)",
+    "C05": "after quiescence the table, the three policy deques with their running totals, the timer wheel and the public views (WeightedSize, EstimatedSize, All, Hottest, Coldest) agree (WriteReplay.tla: Agree; real cache: WRAudit.tla)",
+    "C06": "values written = values present + values reported; each removed value reaches OnAtomicDeletion and OnDeletion exactly once with the same cause; per key the atomic handler sees removals in installation order (WriteReplay.tla: Once/NeverTwice; real cache: WRAudit.tla)",
+}
+for _p in ("C04", "C05", "C06"):
+    CHECKS[_p] = wrcheck.run
+    META[_p] = {
+        "engine": "write-replay",
+        "text": _WR_TEXT[_p],
+        "design_ref": "DESIGN.md section 6 (%s), section 3.2 B2" % _p,
+        "note": "bounded model (2-3 writers, 1-2 keys, 2-3 ops); real runs: 2-4 writers, gate-scheduled (random/PCT) or yield-perturbed free running, frozen clock; audit reads unexported state through in-package overlay tests",
+        "technique": "TLA+ spec (WriteReplay.tla) model-checked with TLC + controlled-schedule runs of the real cache whose terminal audit record is judged by a TLA+ trace spec (WRAudit.tla)",
+    }
+ENGINES.append({"name": "write-replay", "path": "tools/wrcheck.py", "serves_properties": ["C04", "C05", "C06"],
+                "kind_free_text": "TLC on spec/WriteReplay.tla; harness/otter/verif_wr_test.go (gate scheduler + audit); spec/WRAudit.tla judges audit records"})
